@@ -41,6 +41,8 @@ def dec2(n):
 # Strategies
 # --------------------------------------------------------------------------------------------------
 CURRENCIES = ['CAD', 'USD', 'EUR']
+# currency codes of one model may contain each other, or be contained in the external sector's NUMERAIRE
+CURRENCY_SETS = [CURRENCIES, CURRENCIES, ['EURO', 'EUR', 'RO'], ['AUSD', 'USD', 'SD'], ['ME', 'NUM', 'RAIRE'], ['USD', 'AUSD', 'AUSDX']]
 COUNTRY_CODES = [['CA', 'CN', 'CS'], ['US', 'UN', 'UW'], ['EU', 'EN', 'EF']]
 
 
@@ -133,8 +135,9 @@ def economy(draw, zones=(1, 3), horizon=(3, 5), want_cross=None, gold=True, fede
     nz = draw(st.integers(*zones))
     spec = {'zones': [], 'external': 'none', 'links': [], 'xr': {}, 'horizon': K}
     gold_left = 1 if gold and nz >= 1 else 0
+    curs = draw(st.sampled_from(CURRENCY_SETS))
     for zi in range(nz):
-        cur = CURRENCIES[zi]
+        cur = curs[zi]
         kind = draw(st.sampled_from(['single', 'federated', 'single'])) if federated else 'single'
         zone = {'currency': cur, 'kind': kind, 'countries': []}
         codes = COUNTRY_CODES[zi]
@@ -233,7 +236,7 @@ def economy(draw, zones=(1, 3), horizon=(3, 5), want_cross=None, gold=True, fede
 
 
 PROBE_KINDS = ['zone-sectors', 'zone-lookup', 'model-sectors', 'country-lookup', 'model-lookup', 'dump', 'loginfo',
-               'zone-sectors', 'zone-lookup', 'shared-zone']
+               'zone-sectors', 'zone-lookup', 'shared-zone', 'other-model', 'other-model']
 
 
 def run_probe(kind, mod, out, allow_loginfo=True):
@@ -272,6 +275,13 @@ def run_probe(kind, mod, out, allow_loginfo=True):
                 secs[-1].ShareParent(secs[0])
         elif kind == 'loginfo' and allow_loginfo:
             mod.LogInfo()
+        elif kind == 'other-model':
+            # an unrelated model is started (and left unfinished) while this one is being put together
+            from sfc_models.models import Model, Country
+            from sfc_models.sector import Sector
+            m2 = Model()
+            s2 = Sector(Country(m2, 'ZZ'), 'AA', 'sector of an unrelated model')
+            s2.GetVariableName('F')
     except Exception:
         pass
 
